@@ -102,6 +102,11 @@ func TestC04_P_ReadSeekModel(t *testing.T) {
 				}
 				var got int64
 				var err error
+				if armed[i] == "copy" {
+					interesting = true
+					classes["seek-after-copy"]++
+					delete(armed, i)
+				}
 				must(t, "Seek", func() { got, err = r.rs.Seek(off, whence) })
 				if target < 0 {
 					if err == nil {
@@ -140,6 +145,29 @@ func TestC04_P_ReadSeekModel(t *testing.T) {
 						classes["seek-interior"]++
 					}
 				}
+			},
+			"copy": func(t *rapid.T) {
+				// io.Copy takes the reader's WriterTo when it has one; either way the rest of the file must come out and the
+				// position must end up at the end (or stay where it was, if already past it)
+				i, r := pick(t)
+				var buf bytes.Buffer
+				var err error
+				must(t, "io.Copy", func() { _, err = io.Copy(&buf, r.rs) })
+				if err != nil {
+					t.Fatalf("C04 [%s] reader %d: io.Copy from %d: %v", fc.Desc, i, r.pos, err)
+				}
+				var want []byte
+				if r.pos < n {
+					want = fc.Data[r.pos:]
+				}
+				if !bytes.Equal(buf.Bytes(), want) {
+					t.Fatalf("C04 [%s] reader %d: io.Copy from %d delivered %d bytes, want %d", fc.Desc, i, r.pos, buf.Len(), len(want))
+				}
+				if r.pos < n {
+					r.pos = n
+				}
+				classes["copy"]++
+				armed[i] = "copy"
 			},
 			"read": func(t *rapid.T) {
 				i, r := pick(t)
